@@ -148,6 +148,7 @@ func (e *Engine) verifyFunc(key string) (res *FuncResult) {
 		for _, u := range c.Uses {
 			x.applyUse(penv, c, u)
 		}
+		pcAtReturn := append([]*Term(nil), st2.pc...)
 		// vacuity guards: this return is reachable, and the antecedent of every implies(...) clause is reachable
 		x.obls = append(x.obls, &Obligation{Fn: x.key, Kind: "cover.return", Props: c.Props, PC: append([]*Term(nil), st2.pc...), Goal: False, Cover: true, PathID: x.pathID, Inputs: x.inputs})
 		for _, en := range c.Ensures {
@@ -191,6 +192,13 @@ func (e *Engine) verifyFunc(key string) (res *FuncResult) {
 			x.obls = append(x.obls, o)
 		}
 		x.frameCheck(st2, penv)
+		// consistency guard: evaluating the clauses adds facts about the values they mention (type facts, unfolding of
+		// errors.Is). Such facts are true of every value, so they can never make a satisfiable path condition
+		// unsatisfiable; if they do, the engine has stated something false and every obligation of this path would hold
+		// vacuously (this happened: the payload of a freshly built error was bounded by the entry heap frontier).
+		if len(st2.pc) > len(pcAtReturn) {
+			x.obls = append(x.obls, &Obligation{Fn: x.key, Kind: "consistent.return", Props: c.Props, PC0: pcAtReturn, PC: append([]*Term(nil), st2.pc...), Goal: False, PathID: x.pathID, Inputs: x.inputs})
+		}
 	})
 	return
 }
